@@ -160,13 +160,50 @@ func (s *EtcdStore) NextOffset(ctx context.Context, topic string, partition int3
 }
 
 // UpdateOffsets stores the next offset (last + 1) so future producers pick up from there.
+//
+// The stored value only ever moves forward. Several brokers can publish the end
+// offset of the same partition (the owner after every flush, any broker that
+// syncs it from S3 when it opens the partition), and a write computed from an
+// older view must not replace a newer one.
 func (s *EtcdStore) UpdateOffsets(ctx context.Context, topic string, partition int32, lastOffset int64) error {
 	ctx, cancel := context.WithTimeout(ctx, 3*time.Second)
 	defer cancel()
 	next := lastOffset + 1
-	_, err := s.client.Put(ctx, offsetKey(topic, partition), strconv.FormatInt(next, 10))
-	s.recordEtcdResult(err)
-	return err
+	key := offsetKey(topic, partition)
+	for {
+		resp, err := s.client.Get(ctx, key)
+		if err != nil {
+			s.recordEtcdResult(err)
+			return err
+		}
+		// Only write if the key is still as it was read.
+		unchanged := clientv3.Compare(clientv3.CreateRevision(key), "=", 0)
+		if len(resp.Kvs) > 0 {
+			if val := strings.TrimSpace(string(resp.Kvs[0].Value)); val != "" {
+				current, err := strconv.ParseInt(val, 10, 64)
+				if err != nil {
+					return fmt.Errorf("parse offset for %s: %w", key, err)
+				}
+				if current >= next {
+					s.recordEtcdResult(nil)
+					return nil
+				}
+			}
+			unchanged = clientv3.Compare(clientv3.ModRevision(key), "=", resp.Kvs[0].ModRevision)
+		}
+		txn, err := s.client.Txn(ctx).
+			If(unchanged).
+			Then(clientv3.OpPut(key, strconv.FormatInt(next, 10))).
+			Commit()
+		s.recordEtcdResult(err)
+		if err != nil {
+			return err
+		}
+		if txn.Succeeded {
+			return nil
+		}
+		// Another writer got in between the read and the write; look again.
+	}
 }
 
 func offsetKey(topic string, partition int32) string {
